@@ -24,7 +24,9 @@ FNS = ["t_arith", "t_shift", "t_shift32", "t_u8", "t_cast", "t_castbool", "t_div
        # phase 4
        "t_ret_for", "t_ret_loop", "t_ret_while", "t_try_loop", "t_assert", "t_rangec",
        # phase 5
-       "h_kfm"]
+       "h_kfm",
+       # phase 6
+       "t_litpat", "t_ntpat"]
 METHODS = [("Nt", "low"), ("Nt", "opt"), ("Pt", "cap"), ("Pt", "off")]
 HELPERS = [("Dn", "from_num"), ("Dn", "to_num"), ("Rec", "mk"), ("Sip", "new"), ("Sip", "round"), ("Sip", "hash"),
            ("Sip", "digest"), ("Sip", "bump")]      # translated, exercised through the `t_*` functions
